@@ -816,7 +816,24 @@ pub(crate) fn check_if_response_is_matched(
             let first_last_n_header_number = headers[reorg_count].header().number();
             let last_last_n_header_number = headers[headers.len() - 1].header().number();
             let last_number = last_header.header().number();
-            if first_last_n_header_number != start_number
+            // When more than `last_n_blocks` blocks are requested, the server doesn't sample any
+            // block if all requested difficulties are only reached inside the last n blocks.
+            let no_sample_is_required = {
+                let first_last_n_header = &headers[reorg_count];
+                let total_difficulty_before_last_n: U256 = first_last_n_header
+                    .parent_chain_root()
+                    .total_difficulty()
+                    .unpack();
+                let difficulty_boundary: U256 = prev_request.difficulty_boundary().unpack();
+                first_last_n_header_number > start_number
+                    && last_n_count >= last_n_blocks
+                    && total_difficulty_before_last_n < difficulty_boundary
+                    && prev_request
+                        .difficulties()
+                        .into_iter()
+                        .all(|d| Unpack::<U256>::unpack(&d) > total_difficulty_before_last_n)
+            };
+            if (first_last_n_header_number != start_number && !no_sample_is_required)
                 || last_last_n_header_number.checked_add(1) != Some(last_number)
             {
                 let errmsg = format!(
